@@ -108,10 +108,11 @@ fn main() {
                 eprintln!("ERROR: failed to build: injected failure");
             } else {
                 // reproducible builds: identical inputs give the same image id under any name
-                let id = format!(
-                    "{:016x}",
-                    simcore::rng::hash_str(&format!("{:?}|{:?}", digest, args.iter().filter(|a| !a.starts_with("libcnbtest_") && !a.contains("name=libcnbtest_") && !a.starts_with("VERIF_ROOT=")).collect::<Vec<_>>()))
-                );
+                // (absolute locations are not part of the image's content)
+                let scratch = dir.parent().map(|p| p.display().to_string()).unwrap_or_default();
+                let inputs = format!("{:?}|{:?}", digest, args.iter().filter(|a| !a.starts_with("libcnbtest_") && !a.contains("name=libcnbtest_") && !a.starts_with("VERIF_ROOT=") && !a.contains(scratch.as_str())).collect::<Vec<_>>());
+                // (a sha256-looking id: 64 hex digits)
+                let id: String = (0..4).map(|k| format!("{:016x}", simcore::rng::hash_str(&format!("{k}{inputs}")))).collect();
                 let p = state.join("images").join(&image);
                 touch(&p);
                 let _ = std::fs::write(&p, id);
